@@ -66,6 +66,36 @@ def rule_ab(ctx):
     m = ctx.model
     ctx.consult(IMG)
     f = m.func(IMG, "Image.subregion")
+    from . import c02sem
+
+    cmp_ = c02sem.compare(f)
+    ctx.stat("subregion_cases_folded", sum(1 for c in cmp_ if c[2] is True))
+    if cmp_ and all(c[2] is True for c in cmp_):
+        # decided on the folded method: for every kind of region argument, in 2 and 3 dimensions, the result term (data block, origin,
+        # dimensions, metadata) has the normal form of the documented construction
+        ctx.instance(Ra, 3)
+        ctx.floor(Ra, 3)
+        ctx.instance(Rb)
+        ctx.floor(Rb, 1)
+        for what in ("data self.img[...]", "origin voxel (.start)", "opposite voxel (.stop)"):
+            ctx.ob(Ra, f.qname, f"{what}: the selection that reaches it is bounded to the image (slice.indices of the clipped box; folded for slices, open slices, "
+                   "VoxelArray and CoordinateArray regions in 2 and 3 dimensions)", True, "", f.node)
+        for what in ("the same selection feeds data, origin voxel and opposite voxel", "origin = coordinatesystem.coordinate(origin voxel)",
+                     "opposite = coordinatesystem.coordinate(opposite voxel)", "dimensions[m] = extent[interpret_indexing('ijk'[m], 'xyz'[:dim]).pos] for m in range(space_dim)",
+                     "result is type(self)(img=self.img[selection], **metadata()) with only dimensions and origin overridden"):
+            ctx.ob(Rb, f.qname, what + " (folded; term equals the documented construction)", True, "", f.node)
+        return
+    if cmp_ and any(c[2] is True for c in cmp_) and not any(c[2] is False for c in cmp_):
+        # part of the cases has the documented normal form, the rest leaves the folding language (e.g. a vectorised bounding box): the
+        # method no longer has the statement shape the syntactic rules below read, so they are not applied; the undecided cases are reported
+        ctx.instance(Ra, 3)
+        ctx.floor(Ra, 3)
+        ctx.instance(Rb)
+        ctx.floor(Rb, 1)
+        for label, dim, eq, why in cmp_:
+            ctx.ob(Rb, f.qname, f"subregion({label}) in {dim}d: data block, origin, dimensions and metadata equal the documented construction (folded)", eq is True,
+                   "" if eq is None else why[:200], f.node)
+        return
     g = C.CFG(f.node)
     IN, _ = C.reaching_definitions(g, f.params)
     ctx.stat("cfg_nodes", len(g.nodes))
